@@ -291,7 +291,8 @@ def term_fuel(tree, xp):
     def potL(i, g):
         if i == n:
             return R(g) + g + 2
-        return (W + 3) + max(pot(i + 1, 0, H, g + 1), potL(i + 1, g + 1))
+        # a name or a condition is handed to the dict-side search as it is (fix C06-f); an index step is walked on the list side
+        return max(1 + pot(i, 0, H, g), (W + 3) + max(pot(i + 1, 0, H, g + 1), potL(i + 1, g + 1)))
 
     old = sys.getrecursionlimit()
     sys.setrecursionlimit(max(old, 20000))
